@@ -75,7 +75,8 @@ Inductive mitem :=
 | MReserved (es : list rentry).                             (* the key `_RESERVED_` *)
 
 Record file := mkFile {
-  f_core : bool;                         (* current_file.name == "core_defs.yaml" *)
+  f_core : bool;                         (* Parser.is_core_file: this file IS the package's own core_defs.yaml
+                                            (resolved-path identity; a user file of that name has false) *)
   f_imports : list nat;
   f_constants : list (string * Z);
   f_strings : list string;
@@ -113,7 +114,10 @@ Definition is_letter (a : ascii) : bool :=
 Definition starts_with_letter (n : string) : bool :=
   match n with String a _ => is_letter a | EmptyString => false end.
 Definition reserved_key : string := "_RESERVED_".
-Definition name_ok (n : string) : bool := String.eqb n reserved_key || starts_with_letter n.
+(* check_name(name): names start with a letter *)
+Definition name_ok (n : string) : bool := starts_with_letter n.
+(* check_name(name, allow_reserved=True), handle_message_def only: the directive `_RESERVED_` passes too *)
+Definition name_ok_msg (n : string) : bool := String.eqb n reserved_key || starts_with_letter n.
 
 (* ---- reserved ranges -------------------------------------------------------------- *)
 
@@ -190,8 +194,8 @@ Definition with_msgs (s : st) (x : list (string * Z)) : st :=
   mkSt (inc s) (consts s) (strs s) (aliases s) (hosts s) (mods s) (structs s) x.
 
 (* check_name then check_duplicate_name over the shared namespaces *)
-Definition chk_shared (s : st) (n : string) : option kind :=
-  if negb (name_ok n) then Some KName
+Definition chk_shared (allow_reserved : bool) (s : st) (n : string) : option kind :=
+  if negb (if allow_reserved then name_ok_msg n else name_ok n) then Some KName
   else if mems n (shared_names s) then Some KDupName
   else None.
 
@@ -206,11 +210,11 @@ Definition step (icd : bool) (s : st) (e : ev) : res st :=
   | EFile i yok => if yok then ROk (with_inc s (inc s ++ [i])) else RErr KYaml
   | ENoFile _ => RErr KNoFile
   | EConst n v =>
-    match chk_shared s n with Some k => RErr k | None => ROk (with_consts s (consts s ++ [(n, v)])) end
+    match chk_shared false s n with Some k => RErr k | None => ROk (with_consts s (consts s ++ [(n, v)])) end
   | EStr n =>
-    match chk_shared s n with Some k => RErr k | None => ROk (with_strs s (strs s ++ [n])) end
+    match chk_shared false s n with Some k => RErr k | None => ROk (with_strs s (strs s ++ [n])) end
   | EAlias n ty =>
-    match chk_shared s n with
+    match chk_shared false s n with
     | Some k => RErr k
     | None => match resolve_alias 11 s ty ty 0 with
               | RErr k => RErr k
@@ -230,9 +234,9 @@ Definition step (icd : bool) (s : st) (e : ev) : res st :=
     else if memz v (map snd (mods s)) then RErr KModDup
     else ROk (with_mods s (mods s ++ [(n, v)]))
   | EStruct n =>
-    match chk_shared s n with Some k => RErr k | None => ROk (with_structs s (structs s ++ [n])) end
+    match chk_shared false s n with Some k => RErr k | None => ROk (with_structs s (structs s ++ [n])) end
   | EMsg n id =>
-    match chk_shared s n with
+    match chk_shared true s n with
     | Some k => RErr k
     | None => if String.eqb n reserved_key then RErr KResShape else reg_msg s n id
     end
